@@ -328,6 +328,8 @@ func init() {
 			}
 			if merr != nil {
 				rep.Disagree("C02:marshal-error:"+cls, fmt.Sprintf("%s (%s): Marshal failed: %v", c.Name, c.Pat, merr), info)
+				// a value that cannot be serialised cannot make the trip either
+				rep.Disagree("C01:marshal-error:"+cls, fmt.Sprintf("%s (%s): Marshal failed: %v", c.Name, c.Pat, merr), info)
 				return nil
 			}
 			want := render(c.Img)
